@@ -29,8 +29,12 @@ CLAIMED = {
          "Spec functions are hand transcriptions of the two protocol documents (no reference implementation offline). Trusted: io / bytes / bufio / encoding-binary functions as documented."),
  "C20": ("The fourteen exported wrappers return exactly the byte-wise definition applied to their own arguments (all bytes < 0x80; all bytes in 0x20-0x7e; equal length and equal after folding only A-Z; prefix/suffix by length and window) given the dependency's functions satisfy those definitions.",
          "The dependency github.com/segmentio/asm/ascii (pure-Go fallback and amd64 assembly) is assumed to satisfy the byte-wise definitions; it is not verified here."),
+ "C06": ("Partial: panic-freedom and termination of the hand-written json code under contract, for every input of every length: no index, slice-bounds, nil-dereference, type-assertion or explicit panic in skipSpaces/skipSpacesN/trimTrailingSpaces, parseNull/True/False, parseNumber, parseString (word-at-a-time and slow paths), parseUintHex/parseUnicode, parseValue/parseArray/parseObject (one level), parseInt/parseUint, decodeInt8..decodeUint64/decodeInt/decodeUint/decodeUintptr, Tokenizer.Next/Reset and the scope stack. Termination: the index-driven scanner loops (trimTrailingSpaces, parseNumber, parseString slow path, parseInt/parseUint) have termination measures (decreases obligations); range loops terminate by construction; Tokenizer.Next makes strict progress on success.",
+         "Not proved: termination of the parseValue/parseArray/parseObject recursion as a whole (each level returns a strictly shorter rest, no measure is generated across the recursion). Not decidable by this technique: exhaustion of the goroutine stack by deeply nested documents or cyclic values (function contracts have no model of stack growth; recursion depth is bounded only by input length), the reflection-driven encoder/decoder construction, encoders, Unmarshaler/Marshaler callbacks, float parsing (strconv)."),
+ "C10": ("Partial: the read side of the ownership rule for the code under contract: every scanner, parser and integer decoder has the frame 'modifies nothing' (integer decoders: only the target word), so no store they execute can land in the input buffer (one frame obligation per store and per callee); Tokenizer.Next writes only the tokenizer, its scope stack or memory that did not exist before the call, which the representation invariant separates from the input (lemma next-frame-excludes-input); values handed out by the scanners and the tokenizer are windows of the input (zero-copy is the only sharing).",
+         "Not under contract: copies made for strings/Numbers/RawMessages without zero-copy flags (decodeString/decodeBytes and the unsafe conversions), the Decoder's read buffer reuse, pooled encoder buffers, stability of results across later calls and goroutines (whole-history statements)."),
  "C17": ("Partial, per call: Tokenizer.Next under the representation invariant tokInv (scope stack well formed and separate from the tokenizer and from the input), which Reset establishes and every successful Next re-establishes: no panic for any input; once Err is set Next returns false and changes nothing; a successful Next returns a non-empty Value that is a window of the input ending exactly where the remaining input begins (strict progress); Delim is set exactly for the six delimiter bytes; Kind follows the first byte of the token; for scalars Depth/Index/IsKey equal the stack depth, the top sibling counter minus one and the pending-key flag; '{'/'[' push one level, '}'/']' pop one level of the matching type and clear the pending key, ',' increments the sibling counter and re-arms the key flag inside objects, ':' clears it; Next writes only the tokenizer, its scope stack or memory that did not exist before the call (frame obligations), which with tokInv excludes the input bytes (lemma). Stack methods, Kind/Remaining and the RawValue class predicates equal their definitions.",
-         "Not under contract: the closed statement about whole token streams (concatenation equals the compacted document; agreement with encoding/json's token stream) - an induction over calls that is argued from the per-call contract, not proved; Int/Uint/Float/String value accessors beyond parseInt/parseUint (C02); stack.push's append and the sync.Pool (trusted contracts, stated); the type and counter of the freshly pushed entry as seen after Next returns. Trusted: the tokenizer's memory is only reached through the receiver inside Next (unpacked receiver)."),
+         "Not under contract: the closed statement about whole token streams (concatenation equals the compacted document; agreement with encoding/json's token stream) - an induction over calls that is argued from the per-call contract, not proved; Int/Uint/Float/String value accessors beyond parseInt/parseUint (C02); stack.push's append (trusted contract) and what sync.Pool.Get hands out (assumed: well-formed private stacks of any length; acquireStack's truncation is verified); the type and counter of the freshly pushed entry as seen after Next returns. Trusted: the tokenizer's memory is only reached through the receiver inside Next (unpacked receiver)."),
  "C19": ("Partial: seen-field bitmap sizing and indexing (makeFieldset/has/set), MessageRewriter.Rewrite panic-freedom and termination for every rewriter length and every field number the wire allows, Parse's field windows, EncodeTag/DecodeTag inverse.",
          "Not under contract: JSON template compilation (parseRewriteTemplate*, reflection + json), embddedRewriter splice, Append layout; Rewriter implementations called through the interface are havoc."),
 }
@@ -41,8 +45,6 @@ NOT_APPLICABLE = {
 
 NOT_YET = {
  "C01": "not built yet (json encoders): no contract is claimed until its obligations discharge",
- "C06": "not built yet (json panic-freedom)",
- "C10": "not built yet (json memory ownership)",
  "C11": "not built yet (json.Decoder framing)",
  "C14": "not built yet (json flags)",
  "C15": "not built yet (json.Append prefix/capacity obliviousness)",
